@@ -37,6 +37,7 @@ type Node struct {
 	FailReadAt  int  // >0: Read fails with EIO after this many bytes
 	// owner names as the source machine's user database resolves UID/GID (may be empty)
 	User, Group string
+	FailClose   bool // closing the file after reading it reports an I/O error
 	FailReaddir bool
 	// ReaddirCut > 0: listing the directory returns the first ReaddirCut-1
 	// names together with an error (getdents failing part-way)
@@ -246,7 +247,13 @@ func (f *file) MakeReadable() error {
 	return nil
 }
 
-func (f *file) Close() error { return nil }
+func (f *file) Close() error {
+	if f.n.FailClose && !f.meta {
+		simCount("fs-close-fail")
+		return pathError("close", f.path, syscall.EIO)
+	}
+	return nil
+}
 
 func (f *file) Stat() (*fs.ExtendedFileInfo, error) { return f.fs.info(f.n), nil }
 
